@@ -1104,6 +1104,11 @@ func TestEndToEnd(t *testing.T) {
 		if idx, broken, open := ref.Validate(frames, ref.SideServer, true); idx >= 0 || open {
 			t.Fatalf("wire is not a valid client-to-server conversation: frame %d breaks %v (open message at end: %v)\n%q", idx, broken, open, ref.Describe(frames))
 		}
+		type wireCtl struct {
+			intermediate bool
+			b            []byte
+		}
+		var ctlWire []wireCtl
 		mi, inMsg := 0, false
 		nontrivial := false
 		frag, ictl := 0, 0
@@ -1116,6 +1121,7 @@ func TestEndToEnd(t *testing.T) {
 				if inMsg {
 					ictl++
 				}
+				ctlWire = append(ctlWire, wireCtl{inMsg, append([]byte{f.H.Op}, f.Payload...)})
 			case !inMsg:
 				if mi >= len(msgs) {
 					t.Fatalf("wire has more messages than were sent")
@@ -1266,12 +1272,30 @@ func TestEndToEnd(t *testing.T) {
 			p, _ := io.ReadAll(rd)
 			ctlGot = append(ctlGot, append([]byte{byte(h.OpCode)}, p...))
 		}
-		if len(ctlGot) != len(ctlSent) {
-			t.Fatalf("%d control frames received, %d sent", len(ctlGot), len(ctlSent))
+		if len(ctlWire) != len(ctlSent) {
+			t.Fatalf("%d control frames on the wire, %d sent", len(ctlWire), len(ctlSent))
+		}
+		var ctlWant [][]byte
+		for i, c := range ctlWire {
+			if !bytes.Equal(c.b, ctlSent[i]) {
+				t.Fatalf("control frame %d on the wire differs: %x, sent %x", i, c.b, ctlSent[i])
+			}
+			switch {
+			case !c.intermediate || intermMode == 1:
+				ctlWant = append(ctlWant, c.b)
+			case intermMode == 0: // dropped by the reader
+			case intermMode == 2:
+				ctlWant = append(ctlWant, c.b[:1])
+			default:
+				ctlWant = append(ctlWant, c.b[:1+(len(c.b)-1)/2])
+			}
+		}
+		if len(ctlGot) != len(ctlWant) {
+			t.Fatalf("%d control frames handed to the application, want %d (OnIntermediate mode %d)", len(ctlGot), len(ctlWant), intermMode)
 		}
 		for i := range ctlGot {
-			if !bytes.Equal(ctlGot[i], ctlSent[i]) {
-				t.Fatalf("control frame %d differs: got %x sent %x", i, ctlGot[i], ctlSent[i])
+			if !bytes.Equal(ctlGot[i], ctlWant[i]) {
+				t.Fatalf("control frame %d differs: got %x want %x (OnIntermediate mode %d)", i, ctlGot[i], ctlWant[i], intermMode)
 			}
 		}
 		if nontrivial {
